@@ -477,7 +477,7 @@ func loadYamlGenome(name string) *genetics.Genome {
 // handGenome builds a small well-formed genome by hand: nIn inputs (+1 bias), nOut outputs, nHid hidden nodes,
 // random forward links, consecutive trait ids starting at t0, some nil traits.
 func handGenome(g *G, id int) *genetics.Genome {
-	nTraits := 1 + g.intn(3)
+	nTraits := 1 + g.intn(4)
 	t0 := 1 + g.intn(3)
 	traits := make([]*neat.Trait, nTraits)
 	for i := range traits {
